@@ -100,6 +100,7 @@ func (muxfaultSlice) Gen(r *rand.Rand, i int, tier string) ([]string, []string) 
 type mfRunner struct {
 	in        *mxRunner
 	obstacles []string
+	initOK    map[string]bool // init keys that were served with status 200 and a body at an earlier snapshot
 }
 
 func (muxfaultSlice) NewRunner() Runner {
@@ -195,6 +196,9 @@ func (r *mfRunner) Step(line string) []string {
 			}
 		}()
 	}
+	if strings.HasPrefix(line, "snap") && r.in.started {
+		defer r.checkInits()
+	}
 	func() {
 		// after a failed rotation the unchanged tree's playlist handler of a Low-Latency / fMP4 stream panics
 		// (nil open segment in generateMediaPlaylistFMP4; DESIGN 14, observation O2): outside the properties'
@@ -203,4 +207,28 @@ func (r *mfRunner) Step(line string) []string {
 		r.in.Step(line)
 	}()
 	return []string{"-"}
+}
+
+
+// checkInits: an init file that was served once and is still advertised by EXT-X-MAP must keep being served
+// (its bytes may change with the codec parameters): the unchanged tree keeps serving the cached init when a
+// regeneration fails.
+func (r *mfRunner) checkInits() {
+	defer func() { recover() }() //nolint:errcheck
+	if r.initOK == nil {
+		r.initOK = map[string]bool{}
+	}
+	for _, k := range r.in.listed {
+		if !strings.HasPrefix(k, "init") {
+			continue
+		}
+		w := r.in.do(r.in.uriOf[k])
+		ok := w.Code == 200 && w.Body.Len() > 0
+		if r.initOK[k] && !ok {
+			r.in.failf("C05 %s was served before and is still advertised by EXT-X-MAP, but now gives status %d with %d bytes", k, w.Code, w.Body.Len())
+		}
+		if ok {
+			r.initOK[k] = true
+		}
+	}
 }
